@@ -8,6 +8,7 @@ import (
 	"io"
 	"math/rand/v2"
 	"sort"
+	"strconv"
 	"strings"
 
 	"github.com/tychoish/fun"
@@ -39,6 +40,72 @@ type pnode struct {
 }
 
 var errInjected = errors.New("injected failure")
+
+// c02Rec carries one int in one of four optional fields.
+type c02Rec struct {
+	A int            `json:"a,omitempty"`
+	B string         `json:"b,omitempty"`
+	C []int          `json:"c,omitempty"`
+	M map[string]int `json:"m,omitempty"`
+}
+
+func c02Enc(x int) c02Rec {
+	switch ((x % 4) + 4) % 4 {
+	case 0:
+		return c02Rec{A: x} // 0 encodes as the empty object
+	case 1:
+		return c02Rec{B: strconv.Itoa(x)}
+	case 2:
+		c := []int{x}
+		for k := 0; k < ((x/4)%3+3)%3; k++ {
+			c = append(c, k)
+		}
+		return c02Rec{C: c}
+	}
+	return c02Rec{M: map[string]int{"k" + strconv.Itoa(x): x}}
+}
+
+// c02Dec inverts c02Enc; a record that is not in its image decodes to a
+// value no input contains.
+func c02Dec(r c02Rec) int {
+	const garbage = -987654
+	set := 0
+	v := 0
+	if r.A != 0 {
+		set++
+		v = r.A
+	}
+	if r.B != "" {
+		set++
+		v, _ = strconv.Atoi(r.B)
+	}
+	if len(r.C) > 0 {
+		set++
+		v = r.C[0]
+		if len(r.C) != 1+((v/4)%3+3)%3 {
+			return garbage
+		}
+	}
+	if len(r.M) > 0 {
+		set++
+		if len(r.M) != 1 {
+			return garbage
+		}
+		for k, x := range r.M {
+			v = x
+			if k != "k"+strconv.Itoa(x) {
+				return garbage
+			}
+		}
+	}
+	if set > 1 {
+		return garbage
+	}
+	if set == 1 && fmt.Sprint(c02Enc(v)) != fmt.Sprint(r) {
+		return garbage
+	}
+	return v
+}
 
 func (f *pfault) errAt(i int) error {
 	if f == nil || i != f.Pos {
@@ -329,6 +396,29 @@ func (n *pnode) build(ctx context.Context) *fun.Iterator[int] {
 	case "any":
 		return fun.ConvertIterator(in.Any(), fun.Converter(func(a any) int { return a.(int) }))
 	case "json":
+		if n.K%2 == 1 {
+			// through a structured element type whose fields come and go
+			// from one element to the next (omitempty): each element of the
+			// document decodes into a value of its own
+			enc := fun.ConvertIterator(in, fun.Converter(c02Enc))
+			b, err := enc.MarshalJSON()
+			if err != nil {
+				panic(err)
+			}
+			out := fun.SliceIterator([]c02Rec{})
+			if err := out.UnmarshalJSON(b); err != nil {
+				panic(err)
+			}
+			recs, err := out.Slice(ctx)
+			if err != nil {
+				panic(err)
+			}
+			ints := make([]int, len(recs))
+			for k := range recs { // decoded only after all were yielded: aliasing shows
+				ints[k] = c02Dec(recs[k])
+			}
+			return fun.SliceIterator(ints)
+		}
 		b, err := in.MarshalJSON()
 		if err != nil {
 			panic(err)
